@@ -9,22 +9,23 @@ From FB Require Import Model.Seal Proofs.Seal.
 Import ListNotations.
 Local Open Scope N_scope.
 
-(* [c_fx C : fixes] records which of the three proposed refusals (fixes/C18-seal-size-trunc-append.patch)
-   the source tree contains; props/c18.py reads it from the source on every run and the tie validates it.
-   The current tree has none ([no_fixes]). *)
+(* [c_fx C : fixes] records which refusals the source tree contains: do_open / create-on-existing refuse
+   O_TRUNC and write refuses a non-empty O_APPEND write under seal_size (commit 4429c29).  The code has all
+   three ([all_fixes]); props/c18.py checks that against the source on every run and the tie runs the model
+   with [all_fixes], so a tree without one of them is reported as a broken tie with a failing history. *)
 
-(* The statement as given: with sealing on, no history of requests changes any size. *)
-Definition C18_full (fx : fixes) : Prop := sealed_sizes_full fx.
-
-(* On the current tree it is REFUTED by the faithful model (D10, reproduced on the real code): OPEN or
-   CREATE carrying O_TRUNC truncates, a WRITE whose request flags carry O_APPEND is checked against its
-   offset but appended at EOF. *)
-Theorem C18_refuted : ~ C18_full no_fixes.
-Proof. exact sealed_sizes_refuted. Qed.
-
-(* On a tree that contains the three refusals it holds outright, for ALL histories. *)
-Theorem C18_full_when_fixed : C18_full all_fixes.
+(* The statement as given, for the code as it is: with sealing on, no history of requests (any flags,
+   offsets, lengths, fallocate modes, setattr, open/create/release, with or without no_open) changes the
+   size of any pre-existing file. *)
+Definition C18_full_for (fx : fixes) : Prop := sealed_sizes_full fx.
+Theorem C18_full : C18_full_for all_fixes.
 Proof. exact sealed_sizes_full_fixed. Qed.
+
+(* Each of the refusals is needed: without them the statement is false (this is what the tree did before
+   commit 4429c29: OPEN or CREATE carrying O_TRUNC truncated, a WRITE whose request flags carry O_APPEND
+   was checked against its offset but appended at EOF). *)
+Theorem C18_unrepaired_refuted : ~ C18_full_for no_fixes.
+Proof. exact sealed_sizes_refuted. Qed.
 
 (* Proved part for any tree: the invariant holds for ALL histories whose requests are [covered]: outside
    the narrow known class [known] (O_TRUNC in open/create flags, O_APPEND in a write's flags) or of a kind
@@ -60,8 +61,8 @@ Proof. exact refused_no_effect. Qed.
 Theorem C18_host_model_ok : falloc_within tie_host.
 Proof. exact tie_host_falloc_within. Qed.
 
-(* the three D10 witnesses in the model: a 10-byte file ends with 0, 0 and 14 bytes *)
-Example C18_witnesses :
+(* the three witnesses on the unrepaired model: a 10-byte file ends with 0, 0 and 14 bytes *)
+Example C18_unrepaired_witnesses :
   sizes (snd (run tie_host (mk_cfg true false no_fixes) w_state [Open 0 0 (N.lor 1 O_TRUNC)])) 0 = 0 /\
   sizes (snd (run tie_host (mk_cfg true true no_fixes) w_state [Create 0 0 (N.lor 2 O_TRUNC)])) 0 = 0 /\
   sizes (snd (run tie_host (mk_cfg true false no_fixes) w_state [Open 0 0 2; Write 0 0 0 4 (N.lor 2 O_APPEND)])) 0 = 14.
@@ -71,15 +72,15 @@ Proof. exact (conj witness_open_trunc (conj witness_create_trunc (proj2 witness_
    an accepted in-size write, a refused write, a refused fallocate and a refused setattr *)
 Example C18_nonvacuous :
   slots_ok w_state /\
-  forallb (covered (mk_cfg true false no_fixes))
+  forallb (covered (mk_cfg true false all_fixes))
           [Open 0 0 2; Write 0 0 2 8 2; Write 0 0 8 8 2; Fallocate 0 0 0 0 11; Setattr 0 true 3] = true /\
-  fst (run tie_host (mk_cfg true false no_fixes) w_state
+  fst (run tie_host (mk_cfg true false all_fixes) w_state
            [Open 0 0 2; Write 0 0 2 8 2; Write 0 0 8 8 2; Fallocate 0 0 0 0 11; Setattr 0 true 3])
   = [0; 0; EPERM; EPERM; EPERM].
 Proof. split; [exact w_state_ok|split; reflexivity]. Qed.
 
-(* on a tree with the refusals the three D10 requests are answered EPERM and nothing changes *)
-Example C18_fixed_tree_witnesses :
+(* on the code as it is the three requests are answered EPERM and nothing changes *)
+Example C18_witnesses :
   fst (run tie_host (mk_cfg true false all_fixes) w_state
            [Open 0 0 (N.lor 1 O_TRUNC); Create 0 0 (N.lor 2 O_TRUNC); Open 0 0 2; Write 0 0 0 4 (N.lor 2 O_APPEND)])
   = [EPERM; EPERM; 0; EPERM] /\
@@ -87,8 +88,8 @@ Example C18_fixed_tree_witnesses :
            [Open 0 0 (N.lor 1 O_TRUNC); Create 0 0 (N.lor 2 O_TRUNC); Open 0 0 2; Write 0 0 0 4 (N.lor 2 O_APPEND)])) 0 = 10.
 Proof. split; reflexivity. Qed.
 
-Print Assumptions C18_refuted.
-Print Assumptions C18_full_when_fixed.
+Print Assumptions C18_full.
+Print Assumptions C18_unrepaired_refuted.
 Print Assumptions C18_partial.
 Print Assumptions C18_partial_outside_known.
 Print Assumptions C18_within_size_same.
